@@ -51,3 +51,5 @@ Lemma ex_model_ok : ex_model = Some ex_m.
 Proof. vm_compute. reflexivity. Qed.
 Lemma ex_backend_ok : prepare_structural ex_m = Ok ex_b.
 Proof. vm_compute. reflexivity. Qed.
+
+Definition num_times_ex : nat := Model.Run.num_times ex_m.
